@@ -14,7 +14,7 @@ RULE = ("cases are (reached state, operation) pairs. exhaustive part: 3 (quick) 
         "operations attach(P,C) for every legal pair, declare(n,prefix,uri) (new and re-declaration), remove(n,prefix); breadth-first "
         "over signatures (forest shape, every node's bindings, partition of nodes by nsmap object identity) from three initial "
         "forests (separate nodes, an lxml-imported document whose children share the root's map, one with a nested declaration). "
-        "random part: histories of 200 operations over 10-30 nodes, 4 prefixes, 3 URIs. After every step the bindings of every node "
+        "random part: histories of 200 operations over 14-30 nodes (two imported copies of one document plus separate nodes; children are also detached so that they get re-attached elsewhere), 4 prefixes, 3 URIs. After every step the bindings of every node "
         "are compared with the model. distinct = distinct (state signature, operation); non-trivial = all")
 ASSUMPTIONS = [
     "for descendants of an attached child the statement only fixes the child itself; below it: keys_before <= keys_after <= "
@@ -32,7 +32,7 @@ URI = ("u1", "u2")
 
 def plan(tier, seed):
     if tier == "quick":
-        return [{"bfs": {"n": 3, "depth": 5}, "random": 400}]
+        return [{"bfs": {"n": 3, "depth": 5}, "random": 400}, {"bfs": {"n": 4, "depth": 2}, "random": 0}]
     return [{"bfs": {"n": 3, "depth": 9}, "random": 0}, {"bfs": {"n": 4, "depth": 5}, "random": 0}] + \
            [{"bfs": None, "random": 12000, "salt": i} for i in range(14)] + [{"bfs": None, "random": 0, "repo_tests": True}]
 
@@ -96,6 +96,8 @@ def apply_real(nodes, op):
         return nodes[op[1]].add_namespace(op[2], op[3])
     if op[0] == "remove":
         return nodes[op[1]].remove_namespace(op[2])
+    if op[0] == "detach":
+        return nodes[op[1]].remove_child(nodes[op[2]])
     return nodes[op[1]].add_child(nodes[op[2]])
 
 
@@ -109,6 +111,8 @@ def step(ctx, nodes, label, f, op, wit):
             ctx.count("redeclare_on_node_sharing_parent_map")
     elif op[0] == "remove":
         ctx.count("remove_steps")
+    elif op[0] == "detach":
+        ctx.count("detach_steps")
     else:
         ctx.count("attach_steps")
     try:
@@ -119,6 +123,14 @@ def step(ctx, nodes, label, f, op, wit):
     ctx.evaluated()
     ctx.count("steps")
     after = [dict(n.nsmap) for n in nodes]
+    if op[0] == "detach":
+        # not a namespace operation: it is in the histories only so that nodes get re-attached elsewhere; nothing may change
+        f.remove_child(op[1], op[2])
+        for i in range(len(nodes)):
+            if after[i] != before[i]:
+                ctx.violation("detach-changes-bindings", f"{op}: node {i} changed from {before[i]} to {after[i]}", wit())
+                return False
+        return True
     if op[0] == "attach":
         f.add_child(op[1], op[2])
         inside = subtree(f, op[2])
@@ -199,6 +211,16 @@ def initial_states(n):
         label = {id(x): i for i, x in enumerate(ns)}
         out.append((d, real_state(ns, label)))
         emlkit.discard(root)
+    if n == 4:
+        # two documents imported from the same text: whatever the importer shares between them is part of the start state
+        d = '<r xmlns:a="u1"><x/></r>'
+        ns = []
+        for _ in range(2):
+            root = metapype_io.from_xml(d)
+            ns += [root] + list(root.children)
+        label = {id(x): i for i, x in enumerate(ns)}
+        out.append(("2x" + d, real_state(ns, label)))
+        emlkit.discard(*ns)
     return out
 
 
@@ -261,18 +283,32 @@ def random_history(ctx, hist_no):
     rng = ctx.rng
     n = rng.randint(10, 30)
     prefixes, uris = ("a", "b", "c", "d"), ("u1", "u2", "u3")
-    nodes = [Node("n") for _ in range(n)]
+    # the forest starts with two documents imported from the same text (equal declarations, maps shared inside each document as
+    # the importer does) plus separate nodes: "unrelated trees are unaffected" is checked across all of them
+    doc = '<r xmlns:a="u1" xmlns:b="u2"><x><y/><w/></x><z xmlns:c="u3"/></r>'
+    nodes = []
+    for _ in range(2):
+        root = metapype_io.from_xml(doc)
+        stack = [root]
+        while stack:
+            x = stack.pop()
+            nodes.append(x)
+            stack.extend(reversed(x.children))
+    nodes += [Node("n") for _ in range(max(0, n - len(nodes)))]
+    n = len(nodes)
     label = {id(x): i for i, x in enumerate(nodes)}
-    f = Forest(["n"] * n)
+    f = forest_of(real_state(nodes, label), n)
     history = []
 
     def wit():
-        return {"n": n, "init": "separate", "history": [list(o) for o in history[:-1]], "op": list(history[-1])}
+        return {"n": n, "init": "two-imports", "history": [list(o) for o in history[:-1]], "op": list(history[-1])}
 
     for _ in range(200):
         k = rng.random()
         x = rng.randrange(n)
-        if k < 0.4:
+        if k < 0.1 and f.kids[x]:
+            op = ("detach", x, rng.choice(f.kids[x]))
+        elif k < 0.4:
             cands = [c for c in range(n) if f.may_attach(x, c)]
             if not cands:
                 continue
@@ -310,8 +346,24 @@ def replay(ctx, witness):
         ctx.distinct(2)
         return
     n = witness["n"]
-    if witness["init"] == "separate":
+    if witness["init"] == "two-imports":
+        doc = '<r xmlns:a="u1" xmlns:b="u2"><x><y/><w/></x><z xmlns:c="u3"/></r>'
+        nodes = []
+        for _ in range(2):
+            root = metapype_io.from_xml(doc)
+            stack = [root]
+            while stack:
+                x = stack.pop()
+                nodes.append(x)
+                stack.extend(reversed(x.children))
+        nodes += [Node("n") for _ in range(max(0, n - len(nodes)))]
+    elif witness["init"] == "separate":
         nodes = [Node("n") for _ in range(n)]
+    elif witness["init"].startswith("2x"):
+        nodes = []
+        for _ in range(2):
+            root = metapype_io.from_xml(witness["init"][2:])
+            nodes += [root] + list(root.children)
     else:
         root = metapype_io.from_xml(witness["init"])
         nodes, stack = [], [root]
@@ -326,6 +378,8 @@ def replay(ctx, witness):
         apply_real(nodes, op)
         if op[0] == "attach":
             f.add_child(op[1], op[2])
+        elif op[0] == "detach":
+            f.remove_child(op[1], op[2])
     step(ctx, nodes, label, f, tuple(witness["op"]), lambda: witness)
     ctx.distinct(1)
     ctx.distinct(2)
